@@ -538,6 +538,10 @@ def _np_binop(interp, op, a, b):
 
 
 def np_matmul(A, B):
+    inner_a = A.shape[-1] if A.ndim else None
+    inner_b = B.shape[0] if B.ndim == 1 else (B.shape[-2] if B.ndim >= 2 else None)
+    if inner_a is None or inner_b is None or inner_a != inner_b:
+        raise PyRaise("ValueError", f"matmul: shapes {A.shape} and {B.shape} not aligned")
     if A.ndim == 1 and B.ndim == 1:
         return functools.reduce(add, [mul(x, y) for x, y in zip(A, B)], 0)
     if A.ndim == 2 and B.ndim == 1:
@@ -1569,8 +1573,15 @@ def install_numpy_models(interp):
             raise Unsupported("searchsorted on symbolic-length array")
         items = list(interp.iterate(a))
         # number of elements < v (left) or <= v (right); requires `a` sorted (numpy's own precondition)
-        cnt = 0
         op = "<" if side == "left" else "<="
+        if is_sym(v) or contains_sym(items):
+            # `a` is sorted (numpy's own precondition): the insertion position is the first index whose element is not
+            # op-below v; decided by forking, so that the position is a concrete integer
+            for i, x in enumerate(items):
+                if not interp.truth(compare(x, v, op)):
+                    return i
+            return len(items)
+        cnt = 0
         for x in items:
             cnt = add(cnt, If(compare(x, v, op), 1, 0))
         return cnt
